@@ -142,6 +142,30 @@ CHECKS = {
         note="Undecided: textual equality with the re-parsed model on "
              "concrete histories. Known finding: a removed gap stays listed "
              "in its set/path. " + TRUSTED),
+    "C09": dict(
+        technique="who-may-call / who-writes checks on the call graph plus "
+                  "decision tables of the finders, the rename path and the "
+                  "not-unique handlers by abstract interpretation (static "
+                  "analysis)",
+        engine="TABLE+PAIR",
+        design_ref="DESIGN.md section 4, C09",
+        text="Partial. Decides: only connect (after _search_duplicate), the "
+             "placeholder substitution and the rename path insert into the "
+             "registry, and the registry / fresh-name counter have no other "
+             "writers; the rename path raises NotUniqueError before "
+             "unregistering when the new identifier is carried by another "
+             "line (decision table over free / taken / own identifier and "
+             "placeholder); the set of record types stored under their name "
+             "equals the set the finders search, and the duplicate search "
+             "reaches the name lookup for each of them; the group merge only "
+             "merges a line of the same record type (all 14 x 2 class pairs) "
+             "and every other class falls through to the raising default; "
+             "_register_line only raises the counter, unused_name returns its "
+             "successor; the finder tables (line, segment, try_get_*).",
+        note="Undecided: that lookups return the right line after arbitrary "
+             "histories; 'changes nothing else' on rename. Known findings: "
+             "the ID tags of L and C lines are not in the searched namespace. "
+             + TRUSTED),
     "C10": dict(
         technique="interprocedural may-write effect and alias analysis "
                   "(whole-program fixpoint over the syntax trees, "
@@ -246,6 +270,74 @@ CHECKS = {
              "order of a concrete document (the tables make each single "
              "decision right; their composition over arrival orders is not "
              "enumerated), the dialect (rGFA) cross-checks. " + TRUSTED),
+    "C15": dict(
+        technique="decision tables of multiply() and its helpers by abstract "
+                  "interpretation, return-path analysis of __hash__, and "
+                  "getter/setter agreement of accessor pairs (static "
+                  "analysis)",
+        engine="TABLE",
+        design_ref="DESIGN.md section 4, C15",
+        text="Weak partial. Decides: the factor dispatch of multiply (<0 "
+             "refused before any effect, 1 no effect, 0 removal, >=2 divide "
+             "counts -> names -> one clone per name -> optional "
+             "distribution); every __hash__ returns a value on all paths; "
+             "exactly KC/RC/FC are divided, on the segment and once per edge "
+             "(circular edges listed twice); each edge is cloned once, the "
+             "sides naming the original are re-pointed, segment and edge "
+             "clones are connected; for every simple property/setter pair in "
+             "the library the setter writes the expression the getter reads "
+             "(the from/to accessors of E lines used for re-pointing); copy "
+             "names skip identifiers in use; unknown distribution policies "
+             "are refused.",
+        note="Undecided: equality of the copies' neighbourhoods, which links "
+             "each copy keeps under a distribution policy (an algorithmic "
+             "property of _distribute_links on concrete link lists), count "
+             "arithmetic on values. " + TRUSTED),
+    "C16": dict(
+        technique="decision tables of the counters on abstract segment "
+                  "populations, structural (syntax-tree) conditions on the "
+                  "traversal loops, and the ITER size-change analysis "
+                  "(static analysis)",
+        engine="TABLE+EFFECT",
+        design_ref="DESIGN.md section 4, C16",
+        text="Partial. Decides: n_dovetails / n_containments / n_internals / "
+             "n_dead_ends read exactly the collections the C11 classifier "
+             "files each edge type under and divide by the two "
+             "back-references per edge (tables on abstract populations); the "
+             "component traversal iterates dovetail collections only, cannot "
+             "leave its neighbour loop early (no return/break/raise), skips "
+             "visited segments with continue, records the reached segment in "
+             "both sets and recurses from both ends; "
+             "segment_connected_component starts from both ends; "
+             "connected_components starts one traversal per unvisited "
+             "segment with one shared visited set; no cascade loop can leave "
+             "stale edges behind (ITER), so the counts stay right after "
+             "removals.",
+        note="Undecided: that the traversal computes the partition on "
+             "concrete graphs (an algorithmic fact); remove_small_components. "
+             + TRUSTED),
+    "C18": dict(
+        technique="decision tables over validation level 0..3 of the "
+                  "construction, access, write and header-merge functions by "
+                  "abstract interpretation; decoder class-set agreement "
+                  "(static analysis)",
+        engine="TABLE+CODEC",
+        design_ref="DESIGN.md section 4, C18",
+        text="Partial. Decides per level 0..3: construction parses with the "
+             "validating decoder at >= 1 and stores text (delayed datatypes) "
+             "or an unvalidated decode at 0; _set_existing_field and get "
+             "validate exactly at >= 3 and store/return the same value at "
+             "every level; validate_field / validate validate at every level "
+             "(level 0 adds the tag-name and predefined-type checks that "
+             "construction skipped); for all 27 datatypes unsafe_decode "
+             "returns the same classes as decode; Multiline.add appends at "
+             "every level and validates the value (or compares datatypes) at "
+             ">= 2, refusing a datatype mismatch; every line the three adders "
+             "build from text is constructed with the Gfa's vlevel, for every "
+             "record type and version state (write-time validation at >= 2 is "
+             "decided under C20).",
+        note="Undecided: equality of the written text across levels and "
+             "monotonic acceptance on concrete documents. " + TRUSTED),
     "C19": dict(
         technique="decision table of Cloning.clone over record class x field "
                   "x stored value class (abstract interpretation), with the "
